@@ -210,7 +210,7 @@ func c09Document(c *Ctx, V *ssa.Function, kind string, sigs map[string][]string)
 	}
 	add("nil-document", has("NE("+doc+",nil)"))
 	add("empty-version", has("NE("+doc+`.Version,const:"")`))
-	add("unsupported-version", has("T(call:ngo/internal/slices.Contains(global:ngo/verifier/trustpolicy.", ","+doc+".Version))"))
+	add("unsupported-version", has("T(call:slices.Contains(global:ngo/verifier/trustpolicy.", ","+doc+".Version))"))
 	add("no-statements", has("NE(len("+doc+".TrustPolicies),const:0)") || has("GT(len("+doc+".TrustPolicies),const:0)") || has("GE(len("+doc+".TrustPolicies),const:1)"))
 	loop := findLoop(V, func(d string) bool { return d == doc+".TrustPolicies" })
 	if loop == nil {
@@ -500,7 +500,7 @@ func c09Stores(c *Ctx, TS *ssa.Function) {
 		for _, ex := range s.Exits {
 			_, a := hasLabel(ex.Checked, "EQ(param:", "global:ngo/verifier/truststore.Types[")
 			_, b := hasLabel(ex.Checked, "global:ngo/verifier/truststore.Types[", ",param:")
-			_, d := hasLabel(ex.Checked, "T(call:ngo/internal/slices.Contains(global:ngo/verifier/truststore.Types,")
+			_, d := hasLabel(ex.Checked, "T(call:slices.Contains(global:ngo/verifier/truststore.Types,")
 			if !a && !b && !d {
 				ok = false
 			}
@@ -535,7 +535,7 @@ func c09Identities(c *Ctx, TI *ssa.Function) {
 	wc, _ := w.constString("internal/trustpolicy", "Wildcard")
 	xs, _ := w.constString("internal/trustpolicy", "X509Subject")
 	site := w.FnPos(TI)
-	ok, n, wit := exitsBlocked(fi, Mode{Kind: mErr}, anyOf("LE(len("+p+"),const:1)", fmt.Sprintf("F(call:ngo/internal/slices.Contains(%s,const:%q))", p, wc)), nil)
+	ok, n, wit := exitsBlocked(fi, Mode{Kind: mErr}, anyOf("LE(len("+p+"),const:1)", fmt.Sprintf("F(call:slices.Contains(%s,const:%q))", p, wc)), nil)
 	c.slot(ok && n >= 2, n, "identity/wildcard-alone", "identities: the wildcard identity stands alone", site, "a wildcard next to other identities is accepted", wit...)
 	loop := findLoop(TI, func(d string) bool { return d == p })
 	if loop == nil {
@@ -732,7 +732,7 @@ func c09Scopes(c *Ctx, ociV *ssa.Function) {
 	}
 	b, n := toInner(anyOf("NE(len("+sc+"),const:0)", "GT(len("+sc+"),const:0)", "GE(len("+sc+"),const:1)"))
 	c.slot(b, n, "scope/present", "scopes: every statement has at least one registry scope", osite, "")
-	b, n = toInner(anyOf("LE(len("+sc+"),const:1)", fmt.Sprintf("F(call:ngo/internal/slices.Contains(%s,const:%q))", sc, wc)))
+	b, n = toInner(anyOf("LE(len("+sc+"),const:1)", fmt.Sprintf("F(call:slices.Contains(%s,const:%q))", sc, wc)))
 	c.slot(b && n >= 2, n, "scope/wildcard-alone", "scopes: the wildcard scope stands alone", osite, "")
 	// the outer iteration completes only through the scope loop
 	{
